@@ -262,6 +262,68 @@ fn run_ordering(idx: u64, st: &mut Stats) {
     run_case(&source, Some(&doc), &case, source.len() as u64, st);
 }
 
+// ---- strings family: two templates with a string at every kind of string site x a string menu ----
+
+const STR_SIGMA: [&str; 10] = ["a", "\"", "\\", " ", "\t", "\n", "\r", "\u{1f}", "\u{85}", "é"];
+const STR_LINES: [&str; 7] = ["a", " a", "  a", "\ta", "", " ", "a "];
+
+/// every string over STR_SIGMA of 1..=max_len symbols, then every paragraph of 2..=max_lines STR_LINES lines
+fn string_menu(max_len: u32, max_lines: u32) -> Vec<String> {
+    use vcore::enumerate as en;
+    let mut v = Vec::new();
+    let k = STR_SIGMA.len() as u64;
+    let mut seq = Vec::new();
+    for i in 1..en::count_upto(k, max_len) {
+        en::nth_upto(k, i, &mut seq);
+        let mut s = String::new();
+        en::render(&STR_SIGMA, &seq, &mut s);
+        v.push(s);
+    }
+    let k = STR_LINES.len() as u64;
+    for n in 2..=max_lines {
+        for i in 0..en::count_exact(k, n) {
+            en::nth_exact(k, n, i, &mut seq);
+            v.push(seq.iter().map(|&x| STR_LINES[x]).collect::<Vec<_>>().join("\n"));
+        }
+    }
+    v
+}
+
+/// template 0: type system document with the string as description of a type, a field, an argument
+/// (three nesting depths) and as an argument default; template 1: executable document with the string
+/// as variable default, argument value, and inside a list and an object in a directive argument
+fn string_template(t: u64, s: &str) -> m::Document {
+    use m::*;
+    if t == 0 {
+        let mut ty = TypeDef::new(TypeKind::Object, "T");
+        ty.description = Some(s.to_string());
+        let mut arg = InputValueDef::new("x", Ty::named("String"));
+        arg.description = Some(s.to_string());
+        arg.default = Some(Value::str(s));
+        let mut f = FieldDef::new("a", Ty::named("Int"));
+        f.description = Some(s.to_string());
+        f.args.push(arg);
+        ty.fields.push(f);
+        Document { defs: vec![Definition::Type(ty)] }
+    } else {
+        let field = Field::new("a")
+            .arg("x", Value::str(s))
+            .dir(Directive::with("d", &[("y", Value::List(vec![Value::str(s), Value::obj(&[("k", Value::str(s))])]))]));
+        let mut op = Operation::query(vec![Selection::Field(field)]);
+        op.name = Some("Q".into());
+        op.vars.push(VarDef { name: "v".into(), ty: Ty::named("String"), default: Some(Value::str(s)), directives: vec![] });
+        Document { defs: vec![Definition::Operation(op)] }
+    }
+}
+
+fn run_string(t: u64, s: &str, st: &mut Stats) {
+    let doc = string_template(t, s);
+    let source = doc.print();
+    let case = json!({"family": "strings", "template": t, "string": s, "source": source});
+    st.count("strings family documents", 1);
+    run_case(&source, Some(&doc), &case, source.len() as u64, st);
+}
+
 fn replay(case: &Value, st: &mut Stats) {
     match case["family"].as_str() {
         Some("derive") => {
@@ -270,6 +332,7 @@ fn replay(case: &Value, st: &mut Stats) {
             run_derived(&d, case["index"].as_u64().unwrap_or(0), st, &mut usage);
         }
         Some("orderings") => run_ordering(case["index"].as_u64().unwrap_or(0), st),
+        Some("strings") => run_string(case["template"].as_u64().unwrap_or(0), case["string"].as_str().unwrap_or(""), st),
         _ => {
             // free-form: just a source text
             let source = case["source"].as_str().unwrap_or("").to_string();
@@ -299,6 +362,11 @@ fn main() {
     let n_ord = orderings_total();
     let stats = vcore::par_sweep(n_ord, 16, |i, st| run_ordering(i, st));
     chk.absorb(stats);
+    let (str_len, str_lines) = (chk.tier().pick(3, 4), chk.tier().pick(3, 4));
+    let strings = string_menu(str_len, str_lines);
+    let stats = vcore::par_sweep(strings.len() as u64 * 2, 32, |i, st| run_string(i % 2, &strings[(i / 2) as usize], st));
+    println!("strings family: {} strings x 2 templates", strings.len());
+    chk.absorb(stats);
 
     // every production of the generative grammar must have been applied
     let unused: Vec<&str> = (0..gen::production_count())
@@ -317,6 +385,8 @@ fn main() {
         },
         "orderings": {"menu": menu().iter().map(|d| { let mut s = String::new(); m::print_definition(d, &mut s); s }).collect::<Vec<_>>(),
                       "max_len": 3, "documents": n_ord},
+        "strings": {"alphabet": STR_SIGMA, "max_len": str_len, "lines": STR_LINES, "max_lines": str_lines, "strings": strings.len(),
+                    "templates": ["description of a type / field / argument + argument default", "variable default + argument value + list item and object field in a directive argument"]},
         "configurations": {"layouts": ["default", "no_indent()", "indent_prefix(\"\")", "indent_prefix(\" \")", "indent_prefix(\"\\t\")", "indent_prefix(\"    \")"],
                            "initial_indent_level": LEVELS, "count": LAYOUTS.len() * LEVELS.len()},
     });
@@ -324,14 +394,14 @@ fn main() {
     if !unused.is_empty() {
         chk.note(format!("productions never applied at this bound: {unused:?}"));
     }
-    chk.rule = "every derivation of refmodel::gen (size = sum of production costs) up to max_size, and every sequence of 1..3 menu \
-                definitions, each x 18 serializer configurations; non-trivial = the default serialization is layout-sensitive \
+    chk.rule = "every derivation of refmodel::gen (size = sum of production costs) up to max_size, every sequence of 1..3 menu \
+                definitions, and every (template, string) of the strings family, each x 18 serializer configurations; non-trivial = the default serialization is layout-sensitive \
                 (contains a block string, a multi-line comma-separated list, or more than one definition)"
         .into();
     chk.assumptions = vec![
         "the harness printer (refmodel::ast::Document::print) renders the generated document in valid GraphQL; a parse error of a generated document is reported as a violation class of its own (generator or parser bug)".into(),
         "the parsed AST is additionally required to equal the generated mini-AST (projection checks::astproj), so a conversion that drops a part on both sides of the round trip is seen".into(),
-        "string contents are limited to two representatives (\"s\" and \"p\\n q\"); string escaping is C09's subject".into(),
+        "inside the grammar-derived documents string contents are limited to two representatives (\"s\" and \"p\\n  \\n q\"); the strings family puts every string of the stated menu at every kind of string site of two fixed templates (the string space proper is C09's subject)".into(),
         "lists have 1..2 elements, documents 1..3 definitions; names are fixed per position (second elements use keyword-like names)".into(),
     ];
     chk.finish(&|case| {
